@@ -88,7 +88,8 @@ static void exec_restart(Plan const& p, Report& rep)
             ld target = (i + 1 < sorted.size()) ? std::sqrt(sorted[i] * sorted[i + 1]) : sorted[i] / 2;
             target = round_to(p.nt, target);
             bool clear = true;
-            for (ld x : rho) clear = clear && std::fabs(x - target) > 64 * eps_of(p.nt) * target;
+            ld const unc = rel_error_uncertainty(s0.w->view(), p.nt);
+            for (ld x : rho) clear = clear && std::fabs(x - target) > (unc + 64 * eps_of(p.nt)) * std::max(x, target);
             if (clear)
             {
                 q.target = target;
@@ -246,7 +247,8 @@ static void exec_restart(Plan const& p, Report& rep)
                 if (!nw->load(q, text, info) || info.threw)
                 {
                     durability_check(q, *nw, before, text, rep, "restart after kill");
-                    rep.fail("C03", "text-not-readable", key_of(q), "checkpoint text could not be read back");
+                    rep.fail("C03", "text-not-readable", roundtrip_class(q).empty() ? key : roundtrip_class(q),
+                        "checkpoint text could not be read back");
                     return;
                 }
             }
@@ -275,7 +277,7 @@ static void exec_restart(Plan const& p, Report& rep)
             // find the first difference for the report
             std::size_t i = 0;
             while (i < fin.size() && i < ref_text.size() && fin[i] == ref_text[i]) ++i;
-            rep.fail("C03", "resumed-differs", key, fmt(
+            rep.fail("C03", "resumed-differs", roundtrip_class(q).empty() ? key : roundtrip_class(q), fmt(
                 "interruption mask %llx of %llu boundaries: final checkpoint differs from the uninterrupted run at byte %zu",
                 (unsigned long long) mask, (unsigned long long) nb, i));
             return;
@@ -667,7 +669,7 @@ struct CrashCheck : CrashVisitor
         std::string const& c = it->second;
         std::size_t const k = (event < iter_of_event.size()) ? iter_of_event[event] : texts->size() - 1;
         bool complete = false;
-        for (std::size_t j = 0; j != texts->size(); ++j)
+        for (std::size_t j = 1; j < texts->size(); ++j)   // texts[0] stands for "no file": an empty file is no checkpoint
         {
             if ((j + 1 == k || j == k) && c == (*texts)[j]) complete = true;
         }
@@ -780,7 +782,7 @@ static void exec_fscrash(Plan const& p, Report& rep)
                     auto it = files.find(path);
                     if (it == files.end()) return;
                     bool complete = false;
-                    for (auto const& t : *texts) complete = complete || (it->second == t);
+                    for (std::size_t j = 1; j < texts->size(); ++j) complete = complete || (it->second == (*texts)[j]);
                     if (!complete && bad.empty())
                     {
                         bad = it->second.empty() ? std::string("<empty file>") : it->second;
@@ -914,7 +916,7 @@ static void exec_fscrash(Plan const& p, Report& rep)
         else
         {
             bool complete = false;
-            for (auto const& t : texts) complete = complete || (t == it->second);
+            for (std::size_t j = 1; j < texts.size(); ++j) complete = complete || (texts[j] == it->second);
             if (!complete)
             {
                 rep.fail("C18", "incomplete-file", "truncate in place", fmt(
